@@ -940,3 +940,12 @@ func (w *srcWalk) stores(addr ssa.Value, path []string, d int) {
 		}
 	}
 }
+
+// FieldSources enumerates what field `field` of the local struct variable al
+// can hold (see ValueSources): direct stores to the field and the field of
+// every struct value assigned to the variable whole.
+func FieldSources(al *ssa.Alloc, field string) (leaves []ssa.Value, ok bool) {
+	w := &srcWalk{seen: map[string]bool{}, ok: true}
+	w.stores(al, []string{field}, 0)
+	return w.out, w.ok && len(w.out) > 0
+}
